@@ -120,6 +120,7 @@ type Record struct {
 	Inconclusive  string
 	DurationMs    int64
 	HTTPBatchReqs int
+	TimingNoise   int      // elapsed-time verdicts that did not repeat when the case was re-run (dropped)
 	RealFiles     int      // real-adapter downloads: destination files present after Wait
 	BadFiles      []string // ... whose bytes are not the object's
 }
